@@ -32,6 +32,9 @@ const (
 	defaultBase   int = 20 // Backoff base, in ms
 	defaultFactor int = 2
 	defaultCap    int = 180000 // 3 minutes
+
+	// maxDelayMs is the longest delay, in ms, that fits a time.Duration
+	maxDelayMs int = math.MaxInt64 / int(time.Millisecond)
 )
 
 // backoff provides increasing duration with the number of attempt
@@ -63,8 +66,13 @@ func (b *backoff) wait() {
 func (b *backoff) durationForAttempt(attempt int) time.Duration {
 	b.setDefault()
 	expBackoff := math.Min(float64(b.Cap), float64(b.Base)*math.Pow(float64(b.Factor), float64(attempt)))
+	// A time.Duration cannot hold more than about 292 years: larger settings saturate there
+	// instead of overflowing into a negative delay.
+	if expBackoff > float64(maxDelayMs) {
+		expBackoff = float64(maxDelayMs)
+	}
 	d := int(math.Trunc(expBackoff))
-	if !b.NoJitter {
+	if !b.NoJitter && d > 0 {
 		d = rand.Intn(d)
 	}
 	return time.Duration(d) * time.Millisecond
